@@ -236,3 +236,24 @@ var _ = shared.NewCounter
 //@ func (*Interpreter).ProcessPrefixExpression [C13]
 //@   ensures [negation-yields-a-new-value C13] err == nil && exp.Operator == "-" ==> fresh(result)
 //@   ensures [not-yields-a-new-value C13] err == nil && exp.Operator == "!" ==> fresh(result)
+
+// ---- C13: arguments are passed by value ----------------------------------------------------------------
+// The value bound to a parameter (and the converted return value) is a new object, never the
+// caller's own value object, whichever branch of the conversion produced it.
+// (well-formedness of the value objects - no typed-nil pointer inside a value.Value - is a
+// crash-freedom precondition: its call-site obligations belong to the C08 sweep)
+//@ func convertValueToType [C08]
+//@   requires valid(val)
+//@ func (*Interpreter).validateAndSetParameters [C08]
+//@   requires i != nil && sub != nil && (forall k int :: 0 <= k && k < len(args) ==> valid(args[k]))
+
+//@ func convertValueToType [C13]
+//@   dispatch Copy
+//@   dispatch Type
+//@   ensures [converted-value-is-a-new-object C13] err == nil ==> fresh(result) || is(result, *value.null)
+
+// every local variable bound by a call is a new object (or the field-less NULL singleton): no
+// parameter shares the value object of the caller's argument
+//@ func (*Interpreter).validateAndSetParameters [C13]
+//@   loop 1 invariant forall s string :: i.localVars[s] == old(i.localVars[s]) || fresh(i.localVars[s]) || is(i.localVars[s], *value.null)
+//@   ensures [parameters-are-new-objects C13] forall s string :: i.localVars[s] == old(i.localVars[s]) || fresh(i.localVars[s]) || is(i.localVars[s], *value.null)
